@@ -3084,7 +3084,7 @@ impl<'a, R: FileManager> FrontendCtx<'a, R> {
             (
                 RuntypeKind::Object {
                     vs,
-                    indexed_properties: _,
+                    indexed_properties,
                 },
                 other,
             ) => {
@@ -3108,6 +3108,9 @@ impl<'a, R: FileManager> FrontendCtx<'a, R> {
                                         acc.push(r.clone());
                                     }
                                 }
+                            } else if indexed_properties.is_some() {
+                                // the key may fall under the index signature: decided semantically
+                                return Ok(None);
                             } else {
                                 // noop (same as pushing never)
                             }
